@@ -163,6 +163,13 @@ func (s *Stream) reset() {
 	s.conn = nil
 	s.src.Reset()
 	s.dst.Reset()
+
+	// Frames queued in a previous session (e.g. a Pong that was never flushed) must not be written to the new peer.
+	for i, f := range s.pendingFrames {
+		s.releaseFrame(f)
+		s.pendingFrames[i] = nil
+	}
+	s.pendingFrames = s.pendingFrames[:0]
 }
 
 // Returns the stream through which IO is done.
